@@ -1896,6 +1896,12 @@ coap_send_internal(coap_session_t *session, coap_pdu_t *pdu) {
   coap_queue_t *node = coap_new_node();
   if (!node) {
     coap_log_debug("coap_wait_ack: insufficient memory\n");
+    /* coap_send_pdu() counted this CON as active, but it will never be ACKed */
+    if (session->con_active) {
+      session->con_active--;
+      if (session->state == COAP_SESSION_STATE_ESTABLISHED)
+        coap_session_connected(session);
+    }
     goto error;
   }
 
